@@ -9,6 +9,8 @@ COMMON_ASSUME = [
 REL = {"flavour": "release", "name": "release"}
 REL_EV = {"flavour": "release", "name": "release", "events": "offline_numeric"}
 DBG = {"flavour": "debug", "name": "debug"}
+# the library built with its cargo feature `compact` (release profile), reduced workload
+COMPACT = {"flavour": "compact", "name": "compact-feature", "args": ["--scale", "0.3"]}
 
 
 def miri(shards=16, timeout=900, args=None, budget=100):
@@ -40,7 +42,7 @@ P("C01", RM + "panic/overflow/internal-error/progress monitors over hostile gene
   "Non-trivial = distinct input bytes (sweep: inputs that reach a handler).",
   ["termination is decided as bounded progress + watchdog; a watchdog suspect that does not reproduce is reported inconclusive, never as a violation",
    "absence of Miri/ASan reports covers only the executions interpreted; ASan is a red-zone tool"],
-  quick=[REL, DBG, asan(["--stages", "boundary,run,direct"]), miri(16, 1200)], thorough=[REL, DBG, miri(16, 3600, ["--tier", "thorough"], 1500), asan(["--scale", "0.35"])],
+  quick=[REL, DBG, dict(COMPACT, args=["--stages", "boundary,direct", "--scale", "0.3"]), asan(["--stages", "boundary,run,direct"]), miri(16, 1200)], thorough=[REL, DBG, dict(COMPACT, args=["--stages", "boundary,direct,run", "--scale", "0.2"]), miri(16, 3600, ["--tier", "thorough"], 1500), asan(["--scale", "0.35"])],
   floors={"quick": {"evaluations": 3_000_000, "boundary.runs": 5_000, "inputs.reaching-a-handler": 100_000, "direct.tokens": 200_000},
           "thorough": {"evaluations": 100_000_000, "inputs.reaching-a-handler": 5_000_000}})
 
@@ -76,14 +78,14 @@ P("C07", RM + "offline checker (exact rational arithmetic in Python) over the re
   "exhaustive k/8 grid for the 8-bit types; non-decimal literals through the real lexer; MIN/MAX keywords and near misses; suffixed and non-numeric elements. "
   "Oracle: acceptable results = nearest integers of the exact value (both at a tie) united with those of the correctly rounded double/single (Rust core parser); all representable => one of them, none => -222, mixed => either. Non-trivial = distinct (literal,type).",
   ["correct rounding of decimal->binary by Rust's core library is trusted as the second reference"],
-  quick=[REL_EV, DBG, miri(16, 900)], thorough=[REL_EV, DBG, miri(16, 3600, ["--tier", "thorough"], 1500)],
+  quick=[REL_EV, DBG, COMPACT, miri(16, 900)], thorough=[REL_EV, DBG, COMPACT, miri(16, 3600, ["--tier", "thorough"], 1500)],
   floors={"quick": {"evaluations": 1_000_000, "offline.checked.int": 20_000, "decimal.in-range": 200_000, "decimal.out-of-range": 200_000, "decimal.tie": 5_000}, "thorough": {"evaluations": 40_000_000}})
 
 P("C08", RM + "offline checker (decimal->binary rounding from first principles with fractions.Fraction) over the recorded event log + in-process differential oracle: float conversions against Rust core's correctly rounded parser (bit equality) incl. exact midpoint expansions; exact-decimal oracle for booleans; target x element-kind acceptance matrix",
   "float literals: zero spellings, exponents -400..400, shortest representations of random f32/f64, exact decimal expansions of f32 midpoints (halfway cases), 17-20 digit cases, overflow/underflow thresholds, powers of two and ten, 30-800 digit strings; "
   "boolean numerics around 0.5 and beyond 64 bits, ON/OFF and near misses; INF/NINF/NAN/MAX/MIN keywords and near misses; every (target, element kind) pair for 10 targets. Non-trivial = distinct literals / matrix cells.",
   ["Rust core's str::parse::<f32/f64> is correctly rounded (independent of lexical-core)"],
-  quick=[REL_EV, DBG], thorough=[REL_EV, DBG],
+  quick=[REL_EV, DBG, COMPACT], thorough=[REL_EV, DBG, COMPACT],
   floors={"quick": {"evaluations": 3_000_000, "offline.checked.float": 30_000, "offline.checked.bool": 5_000, "f64.normal": 300_000, "f32.subnormal": 5_000, "matrix.rejecting-cell": 500_000}, "thorough": {"evaluations": 100_000_000}})
 
 P("C09", RM + "round-trip oracle: emitted response text decoded by independent decoders and by the library's own parser must give back the formatted value; exhaustive for 8/16-bit integers (and all 2^32 f32 patterns in thorough); Miri on extreme numbers",
@@ -91,7 +93,7 @@ P("C09", RM + "round-trip oracle: emitted response text decoded by independent d
   "bool; ASCII strings with quotes/separators/control characters (non-ASCII must be refused); blocks around every header-width change up to 10^4 (10^6 thorough); &str; character and expression data; Vec/ArrayVec lists (empty refused); "
   "derived enums incl. suffix siblings; every standard error (found by sweeping get_error over all i16) and custom errors with/without extended text. Non-trivial = distinct values.",
   ["NaN/infinities are only checked against the SCPI sentinels; lower-case exponent mark (lexical-core's 1.0e10, pinned by the project's own tests) is counted as an observation, not judged"],
-  quick=[REL, DBG, miri(16, 900)], thorough=[REL, DBG, miri(16, 3600, ["--tier", "thorough"], 1500), asan(["--stages", "int,f64,text,errors", "--scale", "0.3"])],
+  quick=[REL, DBG, COMPACT, miri(16, 900)], thorough=[REL, DBG, COMPACT, miri(16, 3600, ["--tier", "thorough"], 1500), asan(["--stages", "int,f64,text,errors", "--scale", "0.3"])],
   floors={"quick": {"evaluations": 5_000_000, "f32.checked": 3_000_000, "string.checked": 100_000, "list.checked": 100_000}, "thorough": {"evaluations": 4_000_000_000}})
 
 P("C10", RM + "byte-exact comparison of the formatter buffer with the expected framing computed from the executed query units, plus structural re-check by an independent response splitter",
@@ -137,19 +139,21 @@ P("C16", RM + "history monitor: *STB? composition (incl. MAV and MSS), *ESE/*SRE
 P("C17", RM + "differential oracle: NumericValue<T> recognition against the keyword list and the underlying T conversion, resolution against a reference resolver, invariant min<=v<=max on every success; 14 underlying types",
   "data elements: decimal literals in every spelling (on, next to and far from the bounds), MIN/MAX/DEF/UP/DOWN in short/long form and random case, 22 near misses (MAXI, DEFA, UPP, INF, ...), non-numeric elements; "
   "types: 10 integer types, f32, f64, Time<f32>, Frequency<f32>; bounds min<=max incl. min==max, default inside or absent. Non-trivial = distinct (element, type).",
+  quick=[REL, DBG, COMPACT], thorough=[REL, DBG, COMPACT],
   floors={"quick": {"evaluations": 2_000_000, "elements.keyword": 50_000, "resolve.value-on-bound": 10_000}, "thorough": {"evaluations": 100_000_000}})
 
 P("C18", RM + "differential oracle: an independent SCPI-99 suffix table (exact factors, temperature offsets) against the converted quantity in f32 and f64 storage; rejection of undefined suffixes; amplitude/decibel classification",
   "14 quantities x every defined suffix x random case patterns x NRf literals (value compared within 3e-6 / 1e-12 relative, no verdict outside 1e-30..1e30 / 1e-290..1e290), bare numbers, through the real lexer; "
   "undefined suffixes: suffixes of other quantities, undefined multipliers, one-character near misses, random strings <=12; non-numeric elements; PK/PP/RMS and DBV/DBMV/DBUV classification with the number untouched. Non-trivial = distinct (quantity, suffix spelling, literal).",
   ["bare temperature is accepted as kelvin or degree Celsius; ANN as 365 or 365.25 days; EV within 1e-5"],
+  quick=[REL, DBG, COMPACT], thorough=[REL, DBG, COMPACT],
   floors={"quick": {"evaluations": 2_000_000, "undefined-suffix.rejected": 500_000}, "thorough": {"evaluations": 100_000_000}})
 
 P("C19", RM + "items yielded by ChannelList / NumericList / ChannelSpec iterators and tuple conversions compared with a reference list parser, incl. the listed corruption classes; Miri on the cursor arithmetic",
   "grammar-generated lists of 0-20 entries: 1-3 dimensional specs, ranges, quoted path names with any ASCII incl. doubled quotes; numeric entries in every NRf spelling, ranges; corruptions: leading/doubled comma, foreign character in entry position, "
   "range dimension mismatch, third range end, missing separator (numeric lists); directly and through the lexer + Parameters::next_data. Non-trivial = distinct expressions.",
   ["white space inside list expressions and a missing separator between channel-list entries are not specified by the statement and are not generated"],
-  quick=[REL, DBG, miri(16, 900)], thorough=[REL, DBG, miri(16, 3600, ["--tier", "thorough"], 1500)],
+  quick=[REL, DBG, COMPACT, miri(16, 900)], thorough=[REL, DBG, COMPACT, miri(16, 3600, ["--tier", "thorough"], 1500)],
   floors={"quick": {"evaluations": 1_000_000, "spec.iterated": 500_000, "numeric.corruption.missing-separator": 5_000}, "thorough": {"evaluations": 40_000_000}})
 
 P("C20", RM + "generated programs: a committed corpus of 300 derived enum definitions (1851 variants) compiled into the harness; from_mnemonic / TryFrom<Token> / mnemonic() / response text monitored against the matching rule",
